@@ -9,7 +9,8 @@ EXTENDS Ber, Ctl
 --------------------------------------------------------------------------
 (* abstract requests *)
 Ids  == {"i0", "i1", "i2", "i3"}          \* message ids: 0, 127/128/.., 2^31-1, seed-chosen
-Strs4 == {"s0", "s1", "s2", "s3"}         \* s0 is the empty string
+Strs4 == {"s0", "s1", "s2", "s3", "s4"}   \* s0 is the empty string; s4 is a DN written with blanks around its commas (a search route
+                                          \* registered for the same DN without blanks must neither fire nor touch it)
 \* f13..f16: long filters (beyond 64 bytes) in sibling pairs whose content is byte-identical and whose operator differs
 Filters == {"f1", "f2", "f3", "f4", "f5", "f6", "f7", "f8", "f9", "f10", "f11", "f12", "f13", "f14", "f15", "f16"}
 R(op, id, ver, dn, pw, scope, deref, size, time, types, filter, attrs, changes, addattrs, name, ctls) ==
